@@ -16,7 +16,7 @@
   * every loop becomes a structurally recursive function over the list it
     ranges over (or over explicit fuel for `for cond {…}`), returning `Loop`;
   * Go `error` values made by `fmt.Errorf` / `errors.New` are identified by
-    their creation SITE (k-th such call in the function, in source order):
+    their creation SITE (function, k-th such call in it, in source order):
     message texts carry no meaning here;
   * the standard-library functions the translated code calls (`strings.*`,
     ranging over the runes of a string) are MODELLED below, exactly on the
@@ -43,7 +43,8 @@ inductive Loop (σ ρ : Type)
 
 /-- a Go `error` value created in translated code -/
 structure Err where
-  site : Nat
+  fn : String            -- "package.function" that created the value
+  site : Nat             -- k-th `fmt.Errorf` / `errors.New` call of that function, in source order
 deriving DecidableEq, Repr
 
 /-! ## indexing, slicing -/
